@@ -89,7 +89,9 @@ def describe(tier):
         + ", disjoint from S), domain graph = target graph with edges into Z removed plus T_s -> s; orderings: the graph's own "
         "and the reversed-tie alternative; ctfTRu events of up to two items (up to 1 subscript each"
         + ("" if tier == "thorough" else ", non-reflexive")
-        + "); ctfTR: one outcome and one condition item; every base value assignment; plus ctfTRu on the four-node graphs "
+        + "); ctfTR: one outcome and one condition item"
+        + ("" if tier == "thorough" else " on the policy-free domains")
+        + "; every base value assignment; plus ctfTRu on the four-node graphs "
         "with >=3 bidirected and <=5 edges (quick: the 300 with two directed edges; thorough: all 551), transport-marked sets of <=2 nodes, single all-'-' items with <=1 subscript",
         "rule": "state = (target graph, domain, event/query); transition = one unconditional_cft / conditional_cft call whose "
         "expression is evaluated on the multi-domain functional witness family and compared with the target probability",
@@ -359,6 +361,8 @@ def explore(res: Res, g: G, cfgs, tier, seed, only=None):
                         continue
                     case = {"graph": gj, "domain": dj, "event": event_json(items)}
                     check_unconditional(res, g, yg, fam, dom, items, case)
+            if tier == "quick" and z and only is None:
+                continue  # quick: conditional queries on the policy-free domains only
             if variant == 0 and (only is None or "outcomes" in only):
                 pairs = (
                     [((o,), (c,)) for o in one for c in one if (o[0], o[1]) != (c[0], c[1])]
